@@ -1,18 +1,283 @@
+// h_build drives the plugin-facing builder API of pkg/api — the methods of *ContainerAdjustment
+// (adjustment.go) and *ContainerUpdate (update.go) and the removal-marker helpers (helpers.go, mount.go,
+// device.go, env.go) — and compares the messages they leave with Model/Builders.v.
 package main
 
 import (
+	"encoding/json"
 	"fmt"
-	"reflect"
 
 	"github.com/containerd/nri/pkg/api"
+
+	"verif/harness/internal/coqfmt"
+	"verif/harness/internal/hx"
+	"verif/harness/internal/nm"
 )
 
 func main() {
-	for _, v := range []interface{}{&api.ContainerAdjustment{}, &api.ContainerUpdate{}} {
-		t := reflect.TypeOf(v)
-		fmt.Println(t)
-		for i := 0; i < t.NumMethod(); i++ {
-			fmt.Println("  ", t.Method(i).Name, t.Method(i).Type)
+	hx.Main(map[string]func(*hx.Ctx) error{"builders": driveBuilders})
+}
+
+func sprint(v interface{}) string { return fmt.Sprint(v) }
+
+const imports = "From NRI Require Import Base.Strs Base.Assoc Model.Types Model.Builders Run.RunBuilders."
+
+// BuildCase is one sequence of builder calls on a fresh adjustment and on a fresh update.
+type BuildCase struct {
+	Stream string        `json:"stream"`
+	ID     string        `json:"id"`
+	Ops    []Op          `json:"ops"`
+	Adj    *nm.Adjust    `json:"adj"`
+	UID    string        `json:"uid"`
+	UOps   []Op          `json:"uops"`
+	Upd    nm.Update     `json:"upd"`
+	Spec   *nm.Container `json:"spec"`
+	Gen    *SpecObs      `json:"gen,omitempty"`
+	Panics []string      `json:"panics,omitempty"`
+}
+
+func (c *BuildCase) Coq() string {
+	gen := "None"
+	if c.Gen != nil {
+		gen = "(Some " + coqfmt.Pair(c.Gen.C.Coq(), coqfmt.StrList(c.Gen.CDI)) + ")"
+	}
+	return fmt.Sprintf("{| bc_id := %s; bc_ops := %s;\n     bc_adj := %s;\n     bc_uid := %s; bc_uops := %s; bc_upd := %s;\n     bc_spec := %s;\n     bc_gen := %s |}",
+		coqfmt.Str(c.ID), opsCoq(c.Ops, bopCoq), c.Adj.Coq(), coqfmt.Str(c.UID), opsCoq(c.UOps, uopCoq), c.Upd.Coq(), c.Spec.Coq(), gen)
+}
+
+// updateFromAPI reads a ContainerUpdate back (canonical form; Res nil when Linux or Resources is nil).
+func updateFromAPI(u *api.ContainerUpdate) nm.Update {
+	o := nm.Update{ID: u.ContainerId, Ignore: u.IgnoreFailure}
+	if u.Linux != nil && u.Linux.Resources != nil {
+		o.Res = nm.ResFromAPI(u.Linux.Resources)
+	}
+	return o
+}
+
+// adjustFromAPI reads the adjustment back; a nil element in a repeated field (which no builder may
+// leave behind) is reported instead of being dereferenced.
+func adjustFromAPI(a *api.ContainerAdjustment) (adj *nm.Adjust, bad string) {
+	defer func() {
+		if r := recover(); r != nil {
+			adj, bad = &nm.Adjust{}, "the built adjustment cannot be read back: "+sprint(r)
+		}
+	}()
+	return nm.AdjustFromAPI(a), ""
+}
+
+// the small specs the built adjustments are applied to: keys from the same pools, so that removals remove
+// something and sets replace something
+func specs() []*nm.Container {
+	u32 := func(v uint32) *uint32 { return &v }
+	i64 := func(v int64) *int64 { return &v }
+	return []*nm.Container{
+		{Args: []string{"sh"}, Env: []string{"PATH=/bin"}, Res: &nm.Res{}},
+		{
+			Ann:     []nm.KV{{K: "k1", V: "old1"}, {K: "k2", V: "old2"}},
+			Mounts:  []nm.Mount{{Dest: "/m/a", Type: "bind", Source: "/orig/a", Opts: []string{"ro"}}, {Dest: "/data", Type: "tmpfs", Source: "tmpfs"}},
+			Env:     []string{"E1=old", "PATH=/bin", "E2=x=y"},
+			Args:    []string{"/bin/app", "--flag"},
+			Rlimits: []nm.Rlimit{{Type: "RLIMIT_CORE", Hard: 1, Soft: 1}},
+			Devices: []nm.Device{{Path: "/dev/a", Type: "c", Major: 1, Minor: 3, Mode: u32(0o600)}, {Path: "/dev/null", Type: "c", Major: 1, Minor: 3, UID: u32(0)}},
+			Res: &nm.Res{Scal: []nm.SVal{{F: "MemLimit", I: 1 << 20}, {F: "MemSwap", I: 1 << 21}, {F: "CpuShares", U: 2}, {F: "CpuQuota", I: 50000}, {F: "CpuCpus", S: "0-1"}, {F: "Pids", I: 100}},
+				HP: []nm.HP{{Size: "2MB", Limit: 4}}, Uni: []nm.KV{{K: "memory.high", V: "5"}}},
+			Cgroups: "/cg/orig", Oom: i64(10),
+		},
+		{
+			Ann:     []nm.KV{{K: "io.x/y", V: "z"}},
+			Mounts:  []nm.Mount{{Dest: "/m/b", Type: "bind", Source: "/orig/b"}, {Dest: "/m/a/sub", Type: "bind", Source: "/orig/s", Opts: []string{"rbind", "rprivate"}}},
+			Env:     []string{"E2=", "E1=1"},
+			Devices: []nm.Device{{Path: "/dev/b", Type: "b", Major: 8, Minor: 0}},
+			Res:     &nm.Res{Scal: []nm.SVal{{F: "CpuPeriod", U: 100000}, {F: "CpuMems", S: "0"}}, HP: []nm.HP{{Size: "1GB", Limit: 1}}},
+		},
+	}
+}
+
+func driveBuilders(c *hx.Ctx) error {
+	for _, e := range coverage() {
+		c.HarnessError("%s", e)
+	}
+	if len(c.Stats.HarnessErrors) > 0 {
+		return nil
+	}
+	driveMarks(c)
+
+	g := &G{r: c.Rand("builders")}
+	sh := c.NewShardV("build", imports, "build_case", "verdict_build", []string{"corr_build", "holds_C02", "holds_C13", "holds_C05"}, c.Pick(250, 500))
+	sp := specs()
+	adjNames, updNames := adjMethodNames(), updMethodNames()
+	calls := map[string]int{}
+
+	run := func(stream string, ops, uops []Op, spec *nm.Container) {
+		cs := &BuildCase{Stream: stream, ID: pick(g.r, []string{"ctr0", "ctr1", "c"}), Ops: ops, UID: pick(g.r, ctrIDs), UOps: uops, Spec: spec}
+		a := &api.ContainerAdjustment{}
+		for _, o := range ops {
+			calls["adjust."+o.M]++
+			if p := applyAdj(a, o); p != "" {
+				cs.Panics = append(cs.Panics, "ContainerAdjustment."+o.M+": "+p)
+			}
+		}
+		u := &api.ContainerUpdate{}
+		u.SetContainerId(cs.UID)
+		for _, o := range uops {
+			calls["update."+o.M]++
+			if p := applyUpd(u, o); p != "" {
+				cs.Panics = append(cs.Panics, "ContainerUpdate."+o.M+": "+p)
+			}
+		}
+		var bad string
+		if cs.Adj, bad = adjustFromAPI(a); bad != "" {
+			cs.Panics = append(cs.Panics, bad)
+		}
+		cs.Upd = updateFromAPI(u)
+		var genFailed string
+		if bad == "" {
+			cs.Gen, genFailed = generate(spec, a)
+		}
+		sh.Add(cs.Coq(), cs)
+		js, _ := json.Marshal([]interface{}{ops, uops, spec.Ann})
+		c.Eval(string(js), true)
+		c.Count("stream."+stream, 1)
+		c.Count(fmt.Sprintf("ops.%d", len(ops)), 1)
+
+		// ---- the same oracles in Go
+		for _, p := range cs.Panics {
+			for _, pfx := range []string{"C02", "C13", "C05"} {
+				c.ImplFail("build", pfx+": a builder method panicked or left an unreadable message: "+p, cs)
+			}
+		}
+		if what := oracleC02(cs); what != "" {
+			c.ImplFail("build", "C02: "+what, cs)
+		}
+		if genFailed != "" {
+			c.ImplFail("build", "C13: the generator failed on the built adjustment: "+genFailed, cs)
+		} else if what := oracleC13(cs); what != "" {
+			c.ImplFail("build", "C13: "+what, cs)
+		}
+		if what := oracleC05(cs); what != "" {
+			c.ImplFail("build", "C05: "+what, cs)
+		}
+		if len(c.Stats.Samples) < 3 && len(ops) <= 3 {
+			c.Sample(cs, 3)
+		}
+	}
+
+	// (1) every method alone, several argument draws each (every SetLinux* at least once per run by construction)
+	reps := c.Pick(6, 40)
+	for i := 0; i < reps; i++ {
+		for j, m := range adjNames {
+			um := updNames[(j+i)%len(updNames)]
+			run("single", []Op{g.adjOp(m, i%2 == 0)}, []Op{g.updOp(um)}, sp[(i+j)%len(sp)])
+		}
+	}
+	// (2) remove-then-add and add-then-remove of one key, every markable family; UpdateArgs after SetArgs
+	for i := 0; i < c.Pick(25, 250); i++ {
+		for _, m := range []string{"AddAnnotation", "AddMount", "AddEnv", "AddDevice"} {
+			add := g.adjOp(m, i%4 != 3)
+			rem, _ := removeOf(add)
+			pair := []Op{rem, add}
+			if i%2 == 1 {
+				pair = []Op{add, rem}
+			}
+			u1, u2 := g.updOp(pick(g.r, updNames)), g.updOp(pick(g.r, updNames))
+			if i%3 == 0 {
+				u2 = g.updOp(u1.M) // the same setter twice: the last value counts
+			}
+			run("pair", pair, []Op{u1, u2}, sp[1+i%2])
+		}
+	}
+	// (3) random sequences of 1..8 methods
+	total := c.Pick(650, 20000)
+	for i := 0; i < total; i++ {
+		var ops, uops []Op
+		for n := 1 + g.r.Intn(8); n > 0; n-- {
+			ops = append(ops, g.adjOp(pick(g.r, adjNames), g.r.Intn(3) != 0))
+		}
+		for n := g.r.Intn(7); n > 0; n-- {
+			uops = append(uops, g.updOp(pick(g.r, updNames)))
+		}
+		run("random", ops, uops, sp[g.r.Intn(len(sp))])
+	}
+
+	for _, m := range adjNames {
+		if calls["adjust."+m] == 0 {
+			c.HarnessError("ContainerAdjustment.%s was never called", m)
+		}
+		c.Count("calls.adjust."+m, calls["adjust."+m])
+	}
+	for _, m := range updNames {
+		if calls["update."+m] == 0 {
+			c.HarnessError("ContainerUpdate.%s was never called", m)
+		}
+		c.Count("calls.update."+m, calls["update."+m])
+	}
+	c.Stats.Extra = map[string]interface{}{
+		"adjustment_methods": adjNames, "update_methods": updNames,
+		"coverage": "method sets enumerated by reflection over *api.ContainerAdjustment / *api.ContainerUpdate and compared with the op table: equal",
+	}
+	c.Stats.Rule = "builders: sequences of the REAL builder methods on a fresh ContainerAdjustment and a fresh ContainerUpdate: every method alone with several argument draws (boundary values 0, +-1, max/min int64, max uint64, empty strings, the bare marker \"-\", already marked keys), remove-then-add and add-then-remove pairs of one key for annotations / mounts / env / devices, random sequences of 1..8 methods with keys from small pools so that removals and sets of one key meet; the built adjustment is also applied by the real generator to one of three small specs; all are non-trivial; distinct by (method sequence, arguments). marks: IsMarkedForRemoval / MarkForRemoval / ClearRemovalMarker and the per-type methods on a pool of keys (empty, \"-\", \"--\", marked, unmarked) and random strings"
+	return nil
+}
+
+// ---------------------------------------------------------------- helpers.go
+
+type MarkCase struct {
+	Key    string `json:"key"`
+	Mark   string `json:"mark"`
+	IsK    string `json:"is_key"`
+	IsM    bool   `json:"is_marked"`
+	RtK    string `json:"rt_key"`
+	RtM    bool   `json:"rt_marked"`
+	Clear  string `json:"clear"`
+	MountK string `json:"mount_key"`
+	MountM bool   `json:"mount_marked"`
+	DevK   string `json:"dev_key"`
+	DevM   bool   `json:"dev_marked"`
+	EnvK   string `json:"env_key"`
+	EnvM   bool   `json:"env_marked"`
+}
+
+func sb(k string, m bool) string { return coqfmt.Pair(coqfmt.Str(k), coqfmt.Bool(m)) }
+
+func driveMarks(c *hx.Ctx) {
+	sh := c.NewShardV("marks", imports, "mark_case", "verdict_marks", []string{"corr_marks", "holds_C02", "holds_C13"}, 1000)
+	keys := []string{"", "-", "--", "---", "-a", "a", "a-", "-/m/a", "/m/a", "--x", "- ", " -", "k=v", "-k=v", "E1", "-E1", "/dev/null", "-/dev/null"}
+	r := c.Rand("marks")
+	alphabet := "-ab/=. "
+	for i := 0; i < c.Pick(150, 2000); i++ {
+		n := r.Intn(5)
+		b := make([]byte, n)
+		for j := range b {
+			b[j] = alphabet[r.Intn(len(alphabet))]
+		}
+		keys = append(keys, string(b))
+	}
+	for _, k := range keys {
+		cs := MarkCase{Key: k, Mark: api.MarkForRemoval(k), Clear: api.ClearRemovalMarker(k)}
+		cs.IsK, cs.IsM = api.IsMarkedForRemoval(k)
+		cs.RtK, cs.RtM = api.IsMarkedForRemoval(api.MarkForRemoval(k))
+		cs.MountK, cs.MountM = (&api.Mount{Destination: k}).IsMarkedForRemoval()
+		cs.DevK, cs.DevM = (&api.LinuxDevice{Path: k}).IsMarkedForRemoval()
+		cs.EnvK, cs.EnvM = (&api.KeyValue{Key: k}).IsMarkedForRemoval()
+		sh.Add(fmt.Sprintf("{| mk_key := %s; mk_mark := %s; mk_is := %s; mk_rt := %s; mk_clear := %s; mk_mount := %s; mk_dev := %s; mk_env := %s |}",
+			coqfmt.Str(k), coqfmt.Str(cs.Mark), sb(cs.IsK, cs.IsM), sb(cs.RtK, cs.RtM), coqfmt.Str(cs.Clear),
+			sb(cs.MountK, cs.MountM), sb(cs.DevK, cs.DevM), sb(cs.EnvK, cs.EnvM)), cs)
+		c.Eval("mark/"+k, true)
+		c.Count("marks", 1)
+		// the oracle in Go, written without the functions under test
+		wantK, wantM := k, false
+		if len(k) > 0 && k[0] == '-' {
+			wantK, wantM = k[1:], true
+		}
+		if cs.RtK != k || !cs.RtM {
+			c.ImplFail("marks", fmt.Sprintf("C02: IsMarkedForRemoval(MarkForRemoval(%q)) = (%q, %v), want (%q, true)", k, cs.RtK, cs.RtM, k), cs)
+		}
+		if cs.IsK != wantK || cs.IsM != wantM {
+			c.ImplFail("marks", fmt.Sprintf("C02: IsMarkedForRemoval(%q) = (%q, %v), want (%q, %v)", k, cs.IsK, cs.IsM, wantK, wantM), cs)
+		}
+		if cs.MountK != wantK || cs.MountM != wantM || cs.DevK != wantK || cs.DevM != wantM || cs.EnvK != wantK || cs.EnvM != wantM {
+			c.ImplFail("marks", fmt.Sprintf("C13: the per-type IsMarkedForRemoval methods disagree on key %q: mount (%q, %v) device (%q, %v) env (%q, %v), want (%q, %v)",
+				k, cs.MountK, cs.MountM, cs.DevK, cs.DevM, cs.EnvK, cs.EnvM, wantK, wantM), cs)
 		}
 	}
 }
